@@ -86,9 +86,12 @@ class FakeMap:
 
 
 class FakeKernel:
-    def __init__(self, possible=None, online=None, first_fd=1000):
+    def __init__(self, possible=None, online=None, first_fd=1000, affinity=None, pin=None):
         self.possible = possible if possible is not None else possible_cpus()
-        self.online = online                    # what os.cpu_count() answers (None: the real one)
+        self.online = online                    # simulated host: its online CPUs (None: the real host)
+        self.affinity = affinity                # simulated host: CPUs this process may run on (None: all online)
+        self.pin = pin                          # real host: really confine the process to that many CPUs
+        self._real_affinity = None
         self.maps = {}
         self.progs = {}
         self.pins = {}
@@ -114,23 +117,56 @@ class FakeKernel:
         am = sys.modules["ebpfcat.arraymap"]
         self._patch(am, "mmap", self.mmap)
         if self.online is not None:
-            # a simulated host: what os.cpu_count() answers (online CPUs) and what sysfs says about
-            # the possible CPUs, for any module of the library that asks either way
-            import builtins
-            import io
-            for m in mods:
-                if hasattr(m, "cpu_count"):
-                    self._patch(m, "cpu_count", lambda: self.online)
-            real_open = builtins.open
-
-            def fake_open(path, *a, **kw):
-                if path == "/sys/devices/system/cpu/possible":
-                    return io.StringIO(f"0-{self.possible - 1}\n" if self.possible > 1 else "0\n")
-                if path == "/sys/devices/system/cpu/online":
-                    return io.StringIO(f"0-{self.online - 1}\n" if self.online > 1 else "0\n")
-                return real_open(path, *a, **kw)
-            self._patch(builtins, "open", fake_open)
+            self._simulate_host()
+        if self.pin is not None:
+            # the REAL host, but this process confined to `pin` CPUs (taskset / cpuset / container): every
+            # source that counts the CPUs of the process now answers less than the possible CPUs
+            self._real_affinity = os.sched_getaffinity(0)
+            os.sched_setaffinity(0, set(sorted(self._real_affinity)[:max(1, self.pin)]))
         return self
+
+    def _simulate_host(self):
+        """a simulated host: EVERY way a process can learn a number of CPUs answers for this host, and each
+        kind of count has its own value - possible >= online (= present, configured) >= affinity of the
+        process.  Only the possible CPUs size a per-CPU value; a library that asks any other source gets a
+        smaller number here whenever the host makes a difference."""
+        import builtins
+        import io
+        import multiprocessing
+        P, O = self.possible, self.online
+        A = self.affinity if self.affinity is not None else O
+
+        def rng(n):
+            return f"0-{n - 1}\n" if n > 1 else "0\n"
+        files = {"/sys/devices/system/cpu/possible": rng(P), "/sys/devices/system/cpu/online": rng(O),
+                 "/sys/devices/system/cpu/present": rng(O),
+                 "/proc/cpuinfo": "".join(f"processor\t: {i}\n\n" for i in range(O))}
+        real_open, real_sysconf = builtins.open, os.sysconf
+
+        def fake_open(path, *a, **kw):
+            if isinstance(path, (str, bytes)) and (os.fsdecode(path) in files):
+                text = files[os.fsdecode(path)]
+                mode = a[0] if a else kw.get("mode", "r")
+                return io.BytesIO(text.encode()) if "b" in mode else io.StringIO(text)
+            return real_open(path, *a, **kw)
+
+        def fake_sysconf(name):
+            if name in ("SC_NPROCESSORS_ONLN", "SC_NPROCESSORS_CONF",
+                        os.sysconf_names.get("SC_NPROCESSORS_ONLN"), os.sysconf_names.get("SC_NPROCESSORS_CONF")):
+                return O
+            return real_sysconf(name)
+        fakes = {"cpu_count": lambda: O, "process_cpu_count": lambda: A,
+                 "sched_getaffinity": lambda pid=0: set(range(A)), "sysconf": fake_sysconf,
+                 "get_nprocs": lambda: O, "get_nprocs_conf": lambda: O}
+        # wherever the name is bound: the os / multiprocessing modules and every module of the library that
+        # imported one of these functions by name (also from a scratch copy of the package)
+        targets = [os, multiprocessing] + [m for n, m in list(sys.modules.items())
+                                           if m is not None and (n == "ebpfcat" or n.startswith("ebpfcat."))]
+        for m in targets:
+            for name, fake in fakes.items():
+                if hasattr(m, name) and callable(getattr(m, name)):
+                    self._patch(m, name, fake)
+        self._patch(builtins, "open", fake_open)
 
     def _patch(self, mod, name, new):
         self._saved.append((mod, name, getattr(mod, name)))
@@ -140,6 +176,9 @@ class FakeKernel:
         for mod, name, old in reversed(self._saved):
             setattr(mod, name, old)
         self._saved = []
+        if self._real_affinity is not None:
+            os.sched_setaffinity(0, self._real_affinity)
+            self._real_affinity = None
 
     def __enter__(self):
         return self.install()
